@@ -372,8 +372,7 @@ def merge_stats(prop, statsdir):
         for k, v in (d.get("labels") or {}).items():
             labels[k] = labels.get(k, 0) + v
         for s in d.get("samples") or []:
-            if len(samples) < 8:
-                samples.append(s)
+            samples.append(s)
         for x in d.get("exhaustive_runs") or []:
             if x not in exhaustive:
                 exhaustive.append(x)
@@ -393,6 +392,21 @@ def merge_stats(prop, statsdir):
                 data = f.read()
             a.frombytes(data[: len(data) // 8 * 8])
             hashes.update(a)
+    # samples: per mode (bucket) the two distinct non-trivial cases with the smallest hashes over all
+    # shards, modes interleaved, at most 12 in all
+    by_bucket = {}
+    for s in samples:
+        if isinstance(s, dict) and "case" in s and "bucket" in s:
+            by_bucket.setdefault(s["bucket"], {})[s.get("hash", 0)] = s["case"]
+        else:
+            by_bucket.setdefault("", {})[len(by_bucket.get("", {}))] = s
+    picked = []
+    for rank in range(2):
+        for b in sorted(by_bucket):
+            hs = sorted(by_bucket[b])
+            if rank < len(hs) and len(picked) < 12:
+                picked.append(by_bucket[b][hs[rank]])
+    samples = picked
     return dict(evaluations=evaluations, nontrivial_total=nontrivial_total, labels=labels, samples=samples,
                 exhaustive=exhaustive, extra=extra, known=known, excluded=excluded, slow=slow,
                 distinct=len(hashes))
